@@ -8,9 +8,9 @@ use rink_core::Context;
 use serde_json::{json, Value};
 use std::collections::{BTreeMap, BTreeSet};
 
-const SOUP: [&str; 27] = [
+const SOUP: [&str; 29] = [
     "a", "b", "a-", "a--", "1", "0", "-1", "m", "!", "?", "{", "}", "const", "/", "|", "^", "-", "+", "(", ")", "?? doc",
-    "!category", "!endcategory", "!symbol", "\\", "\"", "\n",
+    "!category", "!endcategory", "!symbol", "\\", "\"", "\n", "3.", ".",
 ];
 const DATESOUP: [&str; 12] = ["[", "]", "'", "-", ":", " ", "year", "day", "sec", "offset", "T", "#"];
 
@@ -36,7 +36,17 @@ pub struct C13 {
 }
 
 const DEVKINDS: [&str; 6] = ["delete line", "duplicate line", "swap with next line", "delete token", "replace number by 0", "replace number by -1"];
-const SUBSTANCE_FILES: [&str; 17] = [
+const SUBSTANCE_FILES: [&str; 26] = [
+    // base units and their long names: self-naming, mutual, shadowed by units, used before and after
+    "a !a\nb a\n",
+    "a !a\n0b a\nzz 3 a\n",
+    "a !b\nb !a\nc a\nd b\n",
+    "m !meter\nA1 3 meter\nzz 2 meters\n",
+    "m !meter\nmeter 3 m\nA1 meter\n",
+    "m !m\na m\nzz m\n",
+    "a !b\nb 3 a\nc b\n",
+    "a !b\nb- 1000\nc 2 ba\nd 2 b\n",
+    "a !b\nb ? a\nc b\n",
     "m !meter\nlump 3 m\nfoo {\n  lump const weight 5 m\n  broken const y 1 nothing\n}\nheap 2 lump\n",
     "m !meter\nfoo {\n  p const q 5 m\n  r const t 0 m\n}\nq 7 m\n",
     "m !meter\nfoo {\n  density a 2 m / b 1 m\n  other c 1 m / d nothing\n}\na 9 m\n",
@@ -93,6 +103,7 @@ fn exp_file(b: u64, e: u64, form: u64) -> String {
         1 => format!("m !meter\nu {}\n", x),
         2 => format!("m !meter\nu {} m\nv 2 u\n", x),
         3 => format!("m !meter\nu m^{}\n", EXP_EXPS[e as usize]),
+        5 => format!("m !meter\nlength ? m\narea ? length^2\nfoo ? area^{}\nbar ? foo^{}\n", EXP_EXPS[e as usize], EXP_EXPS[e as usize]),
         _ => format!("m !meter\nfoo {{\n  p const q {} m\n}}\n", x),
     }
 }
@@ -280,7 +291,7 @@ impl C13 {
         fams.add("currency JSON: field deleted / type replaced / bad expression", vec![paths.len() as u64, 8]);
         fams.add("date pattern soup", vec![(DATESOUP.len() as u64).pow(if thorough { 5 } else { 4 })]);
         fams.add("substance property values: zero in every representation x position", vec![PROP_VALUES.len() as u64, 3]);
-        fams.add("exponent boundary values in definitions", vec![EXP_BASES.len() as u64, EXP_EXPS.len() as u64, 5]);
+        fams.add("exponent boundary values in definitions", vec![EXP_BASES.len() as u64, EXP_EXPS.len() as u64, 6]);
         C13 { fams, files, devs, soup_len, cyc_lens, json_paths: paths, json_cuts, needed, tier: tier.to_string() }
     }
 
@@ -454,7 +465,7 @@ impl Space for C13 {
         Meta {
             id: "C13",
             level: "exploration",
-            rule: "deviation-bounded: 0 deviations (shipped files) then every single deviation {delete line, duplicate line, swap with next, delete each token, replace each number by 0 / -1} of definitions.units (quick: every 40th line), currency.units and datepatterns.txt; every definitions file of <= 4 (thorough 5) tokens over a 27-token alphabet, loaded into an empty context and into one holding `m !meter`; dependency cycles of length 1..12, 100, 1000, 2000 (thorough 5000) through 11 namespace shapes (units, prefixes, quantities, substance property, prefix/plural readings, reverse order, bare aliases, bare aliases that also read as prefix + base unit, prefix<->unit cycles closed by a prefix used as a prefix in both visiting orders, prefixes defined by names carrying the next prefix); forward/backward alias chains of 1000/3000 (thorough also 10000); 17 malformed substance/directive files; substance property values that are zero in 10 representations (exact, float zero from `0^.5`, float underflow `1e-300^1.5`, ...) x 3 positions, which must be reported, plus non-zero controls (`1e-400`), which must load; exponent boundary values (+-2^31, +-2^32, +-2^63, 1e30) on bases 0/1/-1 in prefix, unit, unit-power and substance definitions; currency JSON truncated at every (quick: every 9th) byte, every field deleted or type-replaced (8 edits); date-pattern soups. Oracle: the load returns without panic/abort/stack overflow within the limit; a problem is reported when a deleted single-line definition was needed by another and has no other reading, and for every cycle; afterwards `1 + 1` answers 2 and queries for loaded/missing names do not panic. Non-trivial = all; distinct by the text loaded".into(),
+            rule: "deviation-bounded: 0 deviations (shipped files) then every single deviation {delete line, duplicate line, swap with next, delete each token, replace each number by 0 / -1} of definitions.units (quick: every 40th line), currency.units and datepatterns.txt; every definitions file of <= 4 (thorough 5) tokens over a 29-token alphabet (incl. the numeral spellings `3.` and `.`), loaded into an empty context and into one holding `m !meter`; dependency cycles of length 1..12, 100, 1000, 2000 (thorough 5000) through 11 namespace shapes (units, prefixes, quantities, substance property, prefix/plural readings, reverse order, bare aliases, bare aliases that also read as prefix + base unit, prefix<->unit cycles closed by a prefix used as a prefix in both visiting orders, prefixes defined by names carrying the next prefix); forward/backward alias chains of 1000/3000 (thorough also 10000); 26 malformed substance/directive and base-unit long-name files (self-naming `a !a`, mutual `a !b; b !a`, long names shadowed by units, prefixes and quantities); substance property values that are zero in 10 representations (exact, float zero from `0^.5`, float underflow `1e-300^1.5`, ...) x 3 positions, which must be reported, plus non-zero controls (`1e-400`), which must load; exponent boundary values (+-2^31, +-2^32, +-2^63, 1e30) on bases 0/1/-1 in prefix, unit, unit-power, substance and quantity definitions; currency JSON truncated at every (quick: every 9th) byte, every field deleted or type-replaced (8 edits); date-pattern soups. Oracle: the load returns without panic/abort/stack overflow within the limit; a problem is reported when a deleted single-line definition was needed by another and has no other reading, and for every cycle; afterwards `1 + 1` answers 2 and queries for loaded/missing names do not panic. Non-trivial = all; distinct by the text loaded".into(),
             assumptions: vec![
                 "expression nesting depth beyond a few hundred is outside the statement's quantifier (chat-size / realistic files)".into(),
                 "the reporting clause is judged only where the harness can prove the deleted definition has no other reading".into(),
